@@ -6,6 +6,7 @@ from skglm.solvers.base import BaseSolver
 from skglm.utils.anderson import AndersonAcceleration
 from skglm.utils.validation import check_group_compatible, check_attrs
 from skglm.solvers.common import dist_fix_point_bcd
+from skglm.utils import _verif
 
 
 class GroupBCD(BaseSolver):
@@ -108,6 +109,9 @@ class GroupBCD(BaseSolver):
                 intercept_opt = 0.
 
             stop_crit = max(np.max(opt), intercept_opt)
+            if _verif.ON:
+                _verif.emit("outer", solver="GroupBCD", t=t, stop_crit=stop_crit,
+                            w=w, Xw=Xw)
 
             if self.verbose:
                 p_obj = datafit.value(y, w, Xw) + penalty.value(w)
@@ -123,6 +127,8 @@ class GroupBCD(BaseSolver):
             ws_size = max(min(self.p0, n_groups),
                           min(n_groups, 2 * gsupp_size))
             ws = np.argpartition(opt, -ws_size)[-ws_size:]  # k-largest items (no sort)
+            if _verif.ON:
+                _verif.emit("ws", solver="GroupBCD", t=t, ws=ws)
 
             for epoch in range(self.max_epochs):
                 # inplace update of w and Xw
@@ -145,10 +151,18 @@ class GroupBCD(BaseSolver):
                 if is_extrapolated:  # avoid computing p_obj for un-extrapolated w, Xw
                     p_obj = datafit.value(y, w, Xw) + penalty.value(w)
                     p_obj_acc = datafit.value(y, w_acc, Xw_acc) + penalty.value(w_acc)
+                    if _verif.ON:
+                        _verif.emit("extrap", solver="GroupBCD", t=t, epoch=epoch,
+                                    w=w, Xw=Xw, w_acc=w_acc, Xw_acc=Xw_acc,
+                                    p_obj=p_obj, p_obj_acc=p_obj_acc)
 
                     if p_obj_acc < p_obj:
                         w[:], Xw[:] = w_acc, Xw_acc
                         p_obj = p_obj_acc
+
+                if _verif.ON:
+                    _verif.emit("epoch", solver="GroupBCD", t=t, epoch=epoch,
+                                w=w, Xw=Xw)
 
                 # check sub-optimality every 10 epochs
                 if epoch % 10 == 0:
@@ -179,7 +193,13 @@ class GroupBCD(BaseSolver):
                         break
             p_obj = datafit.value(y, w, Xw) + penalty.value(w)
             p_objs_out[t] = p_obj
+            if _verif.ON:
+                _verif.emit("outer_end", solver="GroupBCD", t=t, p_obj=p_obj,
+                            w=w, Xw=Xw)
 
+        if _verif.ON:
+            _verif.emit("return", solver="GroupBCD", stop_crit=stop_crit, w=w,
+                        Xw=Xw, n_obj=len(p_objs_out))
         return w, p_objs_out, stop_crit
 
     def custom_checks(self, X, y, datafit, penalty):
